@@ -210,28 +210,29 @@ Section Relation.
   Variable fuel : nat.
   Variable I : compat_input.
   Let P := ci_reg I.
+  Let PX := ci_xreg I.
 
   (* the type a tag stands for: the FIRST entry of the type table of the tag's shape *)
   Definition type_of_tag (c : ctag) : option nat :=
     match c with
-    | CInteger => position is_int (types P)
-    | CBinary => position is_bin (types P)
-    | CReference => position is_ref (types P)
-    | CTuple tid => if tid <? length (tuples P) then position (is_tuple tid) (types P) else None
+    | CInteger => position is_int (types PX)
+    | CBinary => position is_bin (types PX)
+    | CReference => position is_ref (types PX)
+    | CTuple tid => if tid <? length (tuples PX) then position (is_tuple tid) (types PX) else None
     | CFunction f => option_map f_type_id (nth_error (ci_functions I) f)
     | CBuiltin b =>
       match nth_error (ci_builtins I) b with
-      | Some key => position (is_callable_never P key) (types P)
+      | Some key => position (is_callable_never PX key) (types PX)
       | None => None
       end
     | CProcess f =>
       match nth_error (ci_functions I) f with
-      | Some fi => let '(_, _, s, r) := extract_function_type_info P fi in position (is_process (s, r)) (types P)
+      | Some fi => let '(_, _, s, r) := extract_function_type_info P fi in position (is_process (s, r)) (types PX)
       | None => None
       end
     | CResource r =>
       match nth_error (ci_resources I) r with
-      | Some name => position (is_resource name) (types P)
+      | Some name => position (is_resource name) (types PX)
       | None => None
       end
     end.
@@ -239,7 +240,7 @@ Section Relation.
   (* a primitive without an entry in the type table is accepted exactly by itself and by `never`
      (compatibility.rs:245-250, 257-261, 268-272) *)
   Definition prim_fallback (c : ctag) (t : nat) : bool :=
-    match lookup_type P t with
+    match lookup_type PX t with
     | Some pattern =>
       match c with
       | CInteger => is_int pattern || is_never pattern
@@ -260,15 +261,15 @@ Section Relation.
     In c (prim_check cfg fuel I found is_prim tag t) <->
     c = tag /\ match found with
                | Some id => compat cfg fuel I id t = true
-               | None => match lookup_type P t with
+               | None => match lookup_type PX t with
                          | Some pattern => is_prim pattern || is_never pattern = true
                          | None => False
                          end
                end.
   Proof.
-    unfold prim_check. fold P. destruct found as [id|].
+    unfold prim_check. fold PX. destruct found as [id|].
     - destruct (compat cfg fuel I id t); cbn; [intuition congruence|intuition congruence].
-    - destruct (lookup_type P t) as [pattern|]; [|cbn; intuition].
+    - destruct (lookup_type PX t) as [pattern|]; [|cbn; intuition].
       destruct (is_prim pattern || is_never pattern); cbn; intuition congruence.
   Qed.
 
@@ -278,23 +279,23 @@ Section Relation.
   (* table_is_relation: a tag is in the row of pattern t  iff  the tag's type is assignable to t
      (or, for a primitive that has no entry, the fallback) *)
   Theorem table_is_relation : forall c t,
-    In c (compute_compatible_concrete_types cfg fuel I (build_index P) t) <-> accepts c t = true.
+    In c (compute_compatible_concrete_types cfg fuel I (build_index PX) t) <-> accepts c t = true.
   Proof.
     intros c t.
-    destruct (build_index_spec P) as (Hi & Hb & Hr & Hlen & Ht & Hc & Hp & Hs).
-    unfold compute_compatible_concrete_types. fold P.
-    rewrite !in_app_iff, !In_prim_check, !In_flat_enum. fold P.
+    destruct (build_index_spec PX) as (Hi & Hb & Hr & Hlen & Ht & Hc & Hp & Hs).
+    unfold compute_compatible_concrete_types. fold P. fold PX.
+    rewrite !in_app_iff, !In_prim_check, !In_flat_enum. fold P. fold PX.
     rewrite Hi, Hb, Hr.
-    unfold accepts, type_of_tag, prim_fallback. fold P.
+    unfold accepts, type_of_tag, prim_fallback. fold P. fold PX.
     split.
     - intros [[-> H]|[[-> H]|[[-> H]|[H|[H|[H|[H|H]]]]]]].
-      + destruct (position is_int (types P)); [exact H|]. destruct (lookup_type P t); [exact H|destruct H].
-      + destruct (position is_bin (types P)); [exact H|]. destruct (lookup_type P t); [exact H|destruct H].
-      + destruct (position is_ref (types P)); [exact H|]. destruct (lookup_type P t); [exact H|destruct H].
+      + destruct (position is_int (types PX)); [exact H|]. destruct (lookup_type PX t); [exact H|destruct H].
+      + destruct (position is_bin (types PX)); [exact H|]. destruct (lookup_type PX t); [exact H|destruct H].
+      + destruct (position is_ref (types PX)); [exact H|]. destruct (lookup_type PX t); [exact H|destruct H].
       + destruct H as [tid [o [Hn Hin]]]. cbn in Hin. destruct o as [type_id|]; [|destruct Hin].
         destruct (compat cfg fuel I type_id t) eqn:Hcmp; [|destruct Hin]. destruct Hin as [<-|[]].
-        assert (Hlt : tid < length (tuples P)) by (rewrite <- Hlen; apply nth_error_Some; congruence).
-        rewrite (Ht tid Hlt) in Hn. inversion Hn as [Hpos].
+        assert (Hlt : tid < length (tuples PX)) by (rewrite <- Hlen; apply nth_error_Some; congruence).
+        rewrite (Ht tid Hlt) in Hn. assert (Hpos : position (is_tuple tid) (types PX) = Some type_id) by congruence.
         apply Nat.ltb_lt in Hlt. rewrite Hlt, Hpos. exact Hcmp.
       + destruct H as [f [fi [Hn Hin]]]. cbn in Hin.
         pose proof (extract_callable fi) as Hx.
@@ -302,49 +303,49 @@ Section Relation.
         destruct (compat cfg fuel I (f_type_id fi) t) eqn:Hcmp; [|destruct Hin]. destruct Hin as [<-|[]].
         rewrite Hn. cbn. exact Hcmp.
       + destruct H as [b [key [Hn Hin]]]. cbn in Hin. rewrite Hc in Hin.
-        destruct (position (is_callable_never P key) (types P)) as [cid|] eqn:Hpos; [|destruct Hin].
+        destruct (position (is_callable_never PX key) (types PX)) as [cid|] eqn:Hpos; [|destruct Hin].
         destruct (compat cfg fuel I cid t) eqn:Hcmp; [|destruct Hin]. destruct Hin as [<-|[]].
         rewrite Hn, Hpos. exact Hcmp.
       + destruct H as [f [fi [Hn Hin]]]. cbn in Hin.
         destruct (extract_function_type_info P fi) as [[[pa ca] se] re] eqn:Hex. rewrite Hp in Hin.
-        destruct (position (is_process (se, re)) (types P)) as [pid|] eqn:Hpos; [|destruct Hin].
+        destruct (position (is_process (se, re)) (types PX)) as [pid|] eqn:Hpos; [|destruct Hin].
         destruct (compat cfg fuel I pid t) eqn:Hcmp; [|destruct Hin]. destruct Hin as [<-|[]].
         rewrite Hn, Hex, Hpos. exact Hcmp.
       + destruct H as [r [name [Hn Hin]]]. cbn in Hin. rewrite Hs in Hin.
-        destruct (position (is_resource name) (types P)) as [rid|] eqn:Hpos; [|destruct Hin].
+        destruct (position (is_resource name) (types PX)) as [rid|] eqn:Hpos; [|destruct Hin].
         destruct (compat cfg fuel I rid t) eqn:Hcmp; [|destruct Hin]. destruct Hin as [<-|[]].
         rewrite Hn, Hpos. exact Hcmp.
     - intros H. destruct c as [| | |tid|f|b|f|r].
-      + left. split; [reflexivity|]. destruct (position is_int (types P)); [exact H|].
-        destruct (lookup_type P t); [exact H|discriminate].
-      + right; left. split; [reflexivity|]. destruct (position is_bin (types P)); [exact H|].
-        destruct (lookup_type P t); [exact H|discriminate].
-      + right; right; left. split; [reflexivity|]. destruct (position is_ref (types P)); [exact H|].
-        destruct (lookup_type P t); [exact H|discriminate].
+      + left. split; [reflexivity|]. destruct (position is_int (types PX)); [exact H|].
+        destruct (lookup_type PX t); [exact H|discriminate].
+      + right; left. split; [reflexivity|]. destruct (position is_bin (types PX)); [exact H|].
+        destruct (lookup_type PX t); [exact H|discriminate].
+      + right; right; left. split; [reflexivity|]. destruct (position is_ref (types PX)); [exact H|].
+        destruct (lookup_type PX t); [exact H|discriminate].
       + do 3 right; left.
-        destruct (tid <? length (tuples P)) eqn:Hlt; [|destruct (lookup_type P t); discriminate].
+        destruct (tid <? length (tuples PX)) eqn:Hlt; [|destruct (lookup_type PX t); discriminate].
         apply Nat.ltb_lt in Hlt.
-        destruct (position (is_tuple tid) (types P)) as [tau|] eqn:Hpos; [|destruct (lookup_type P t); discriminate].
+        destruct (position (is_tuple tid) (types PX)) as [tau|] eqn:Hpos; [|destruct (lookup_type PX t); discriminate].
         exists tid, (Some tau). split; [rewrite (Ht tid Hlt), Hpos; reflexivity|]. cbn. rewrite H. left; reflexivity.
       + do 4 right; left.
-        destruct (nth_error (ci_functions I) f) as [fi|] eqn:Hn; [|cbn in H; destruct (lookup_type P t); discriminate].
+        destruct (nth_error (ci_functions I) f) as [fi|] eqn:Hn; [|cbn in H; destruct (lookup_type PX t); discriminate].
         cbn in H. exists f, fi. split; [exact Hn|]. cbn.
         pose proof (extract_callable fi) as Hx.
         destruct (extract_function_type_info P fi) as [[[pa ca] se] re]. cbn in Hx. subst ca.
         rewrite H. left; reflexivity.
       + do 5 right; left.
-        destruct (nth_error (ci_builtins I) b) as [key|] eqn:Hn; [|destruct (lookup_type P t); discriminate].
-        destruct (position (is_callable_never P key) (types P)) as [cid|] eqn:Hpos; [|destruct (lookup_type P t); discriminate].
+        destruct (nth_error (ci_builtins I) b) as [key|] eqn:Hn; [|destruct (lookup_type PX t); discriminate].
+        destruct (position (is_callable_never PX key) (types PX)) as [cid|] eqn:Hpos; [|destruct (lookup_type PX t); discriminate].
         exists b, key. split; [exact Hn|]. cbn. rewrite Hc, Hpos, H. left; reflexivity.
       + do 6 right; left.
-        destruct (nth_error (ci_functions I) f) as [fi|] eqn:Hn; [|destruct (lookup_type P t); discriminate].
+        destruct (nth_error (ci_functions I) f) as [fi|] eqn:Hn; [|destruct (lookup_type PX t); discriminate].
         exists f, fi. split; [exact Hn|]. cbn.
         destruct (extract_function_type_info P fi) as [[[pa ca] se] re] eqn:Hex.
-        destruct (position (is_process (se, re)) (types P)) as [pid|] eqn:Hpos; [|destruct (lookup_type P t); discriminate].
+        destruct (position (is_process (se, re)) (types PX)) as [pid|] eqn:Hpos; [|destruct (lookup_type PX t); discriminate].
         rewrite Hp, Hpos, H. left; reflexivity.
       + do 7 right.
-        destruct (nth_error (ci_resources I) r) as [name|] eqn:Hn; [|destruct (lookup_type P t); discriminate].
-        destruct (position (is_resource name) (types P)) as [rid|] eqn:Hpos; [|destruct (lookup_type P t); discriminate].
+        destruct (nth_error (ci_resources I) r) as [name|] eqn:Hn; [|destruct (lookup_type PX t); discriminate].
+        destruct (position (is_resource name) (types PX)) as [rid|] eqn:Hpos; [|destruct (lookup_type PX t); discriminate].
         exists r, name. split; [exact Hn|]. cbn. rewrite Hs, Hpos, H. left; reflexivity.
   Qed.
 End Relation.
@@ -378,6 +379,7 @@ Section IsType.
   Variable fuel : nat.
   Variable I : compat_input.
   Let P := ci_reg I.
+  Let PX := ci_xreg I.
   Let table := compute_type_compatibility cfg fuel I.
 
   Definition is_pattern (t : nat) : bool := existsb (Nat.eqb t) (pattern_type_ids I).
@@ -388,17 +390,17 @@ Section IsType.
     check_type_compatible table c t = true <->
     t < length (types P) /\ is_pattern t = true /\ accepts cfg fuel I c t = true.
   Proof.
-    intros c t. unfold check_type_compatible, table, compute_type_compatibility. fold P.
+    intros c t. unfold check_type_compatible, table, compute_type_compatibility. fold P. fold PX.
     destruct (nth_error (map _ (seq 0 (length (types P)))) t) as [row|] eqn:Hn.
     - assert (Hlt : t < length (types P)).
       { assert (Hx : t < length (map (fun pattern_id =>
                    if existsb (Nat.eqb pattern_id) (pattern_type_ids I)
-                   then compute_compatible_concrete_types cfg fuel I (build_index P) pattern_id else [])
+                   then compute_compatible_concrete_types cfg fuel I (build_index PX) pattern_id else [])
                    (seq 0 (length (types P))))) by (apply nth_error_Some; congruence).
         rewrite map_length, seq_length in Hx. exact Hx. }
       rewrite nth_error_map', nth_error_seq' in Hn by exact Hlt. cbn in Hn. inversion Hn as [Hrow]. clear Hn.
       unfold is_pattern. destruct (existsb (Nat.eqb t) (pattern_type_ids I)).
-      + rewrite mem_tag_In. unfold P. rewrite (table_is_relation cfg fuel I c t). intuition.
+      + rewrite mem_tag_In. unfold PX. rewrite (table_is_relation cfg fuel I c t). intuition.
       + cbn. intuition discriminate.
     - split; [discriminate|]. intros [Hlt _]. exfalso.
       apply nth_error_None in Hn. rewrite map_length, seq_length in Hn. lia.
@@ -406,12 +408,12 @@ Section IsType.
 
   (* a tuple id without a `Type::Tuple(tid)` entry in the type table is never accepted *)
   Corollary no_tuple_entry_never_accepted : forall tid t,
-    position (is_tuple tid) (types P) = None -> check_type_compatible table (CTuple tid) t = false.
+    position (is_tuple tid) (types PX) = None -> check_type_compatible table (CTuple tid) t = false.
   Proof.
     intros tid t Hpos. destruct (check_type_compatible table (CTuple tid) t) eqn:E; [|reflexivity].
     apply istype_is_relation in E. destruct E as (_ & _ & Hacc).
-    unfold accepts, type_of_tag, prim_fallback in Hacc. fold P in Hacc. rewrite Hpos in Hacc.
-    destruct (tid <? length (tuples P)); destruct (lookup_type P t); discriminate.
+    unfold accepts, type_of_tag, prim_fallback in Hacc. fold PX in Hacc. rewrite Hpos in Hacc.
+    destruct (tid <? length (tuples PX)); destruct (lookup_type PX t); discriminate.
   Qed.
 
   (* istype_sound, relative to C09's compat_sound: on the fragment where assignability is proved
@@ -420,14 +422,14 @@ Section IsType.
     cfg_retract cfg = true ->
     check_type_compatible table c t = true ->
     type_of_tag I c = Some tau ->
-    cf_domain cfg P tau = true -> cf_domain cfg P t = true ->
-    inhab P n [] v tau -> inhab P n [] v t.
+    cf_domain cfg PX tau = true -> cf_domain cfg PX t = true ->
+    inhab PX n [] v tau -> inhab PX n [] v t.
   Proof.
     intros c t tau n v Hret Hchk Htag Hd1 Hd2 Hv.
     apply istype_is_relation in Hchk. destruct Hchk as (_ & _ & Hacc).
-    unfold accepts in Hacc. rewrite Htag in Hacc. unfold compat in Hacc. fold P in Hacc.
-    destruct (is_compatible_with cfg fuel P tau t) as [[|]|] eqn:Hc; try discriminate.
-    exact (compat_sound_cf cfg P fuel tau t Hret Hd1 Hd2 Hc n v Hv).
+    unfold accepts in Hacc. rewrite Htag in Hacc. unfold compat in Hacc. fold PX in Hacc.
+    destruct (is_compatible_with cfg fuel PX tau t) as [[|]|] eqn:Hc; try discriminate.
+    exact (compat_sound_cf cfg PX fuel tau t Hret Hd1 Hd2 Hc n v Hv).
   Qed.
 
   (* istype_complete: a value whose tag has a type entry (has_type_entry), whose tag type is
@@ -436,14 +438,14 @@ Section IsType.
   Theorem istype_complete : forall c t tau S,
     t < length (types P) -> is_pattern t = true ->
     type_of_tag I c = Some tau ->
-    is_compatible_with cfg fuel P tau S = Some true ->
-    is_compatible_with cfg fuel P S t = Some true ->
-    (is_compatible_with cfg fuel P tau S = Some true -> is_compatible_with cfg fuel P S t = Some true ->
-     is_compatible_with cfg fuel P tau t = Some true) ->
+    is_compatible_with cfg fuel PX tau S = Some true ->
+    is_compatible_with cfg fuel PX S t = Some true ->
+    (is_compatible_with cfg fuel PX tau S = Some true -> is_compatible_with cfg fuel PX S t = Some true ->
+     is_compatible_with cfg fuel PX tau t = Some true) ->
     check_type_compatible table c t = true.
   Proof.
     intros c t tau S Hlt Hpat Htag H1 H2 Htrans. apply istype_is_relation. repeat split; try assumption.
-    unfold accepts. rewrite Htag. unfold compat. fold P. rewrite (Htrans H1 H2). reflexivity.
+    unfold accepts. rewrite Htag. unfold compat. fold PX. rewrite (Htrans H1 H2). reflexivity.
   Qed.
 
   (* without a type entry (F70: the process type of the top-level function is not in the type table)
@@ -455,7 +457,7 @@ Section IsType.
     intros c t Htag Hnp. destruct (check_type_compatible table c t) eqn:E; [|reflexivity].
     apply istype_is_relation in E. destruct E as (_ & _ & Hacc).
     unfold accepts in Hacc. rewrite Htag in Hacc. unfold prim_fallback in Hacc.
-    destruct (lookup_type (ci_reg I) t); [|discriminate].
+    destruct (lookup_type (ci_xreg I) t); [|discriminate].
     destruct c; try discriminate.
     - destruct (Hnp CInteger) as [H|[H _]]; congruence.
     - destruct (Hnp CBinary) as [H|[_ [H _]]]; congruence.
@@ -495,3 +497,64 @@ Section IsType.
       apply mem_tag_In in Hm. apply Hrel in Hm. discriminate.
   Qed.
 End IsType.
+
+(* ---------------------------------------------------------------- F70 (fix 5eb967d) *)
+(* the tables are computed over the program's types extended with the process type of every function
+   that has none: the process tag of EVERY function has a type entry, and ids of the program's own
+   types are unchanged *)
+Lemma position_exists {A} (pred : A -> bool) l : (exists x, In x l /\ pred x = true) -> position pred l <> None.
+Proof.
+  induction l as [|a l IH]; intros [x [Hin Hp]]; [destruct Hin|]. cbn.
+  destruct (pred a) eqn:Ea; [discriminate|].
+  destruct Hin as [->|Hin]; [congruence|].
+  destruct (position pred l) eqn:Epos; [discriminate|]. exfalso. apply IH; [exists x; auto|reflexivity].
+Qed.
+
+Lemma process_types_pass_covers P : forall fs known f s r pa ca,
+  In f fs -> extract_function_type_info P f = (pa, ca, Some s, r) ->
+  existsb (opair_eqb (Some s, r)) known = true \/ In (TProcess (Some s) r) (process_types_pass P known fs).
+Proof.
+  induction fs as [|f0 fs IH]; intros known f s r pa ca Hin Hex; [destruct Hin|]. cbn [process_types_pass].
+  destruct (extract_function_type_info P f0) as [[[pa0 ca0] s0] r0] eqn:Hex0.
+  destruct Hin as [->|Hin].
+  - rewrite Hex in Hex0. inversion Hex0; subst pa0 ca0 s0 r0.
+    destruct (existsb (opair_eqb (Some s, r)) known) eqn:Ek; [left; reflexivity|right; left; reflexivity].
+  - destruct s0 as [s0|]; [|exact (IH known f s r pa ca Hin Hex)].
+    destruct (existsb (opair_eqb (Some s0, r0)) known) eqn:Ek; [exact (IH known f s r pa ca Hin Hex)|].
+    destruct (IH ((Some s0, r0) :: known) f s r pa ca Hin Hex) as [H|H]; [|right; right; exact H].
+    cbn [existsb] in H. apply orb_true_iff in H. destruct H as [H|H]; [|left; exact H].
+    apply opair_eqb_eq in H. inversion H; subst. right; left; reflexivity.
+Qed.
+
+Lemma known_keys_in_types P key :
+  existsb (opair_eqb key) (known_process_keys P) = true -> exists t, In t (types P) /\ is_process key t = true.
+Proof.
+  intros H. apply existsb_exists in H. destruct H as [k [Hin Hk]]. apply opair_eqb_eq in Hk. subst k.
+  unfold known_process_keys in Hin. apply in_flat_map in Hin. destruct Hin as [t [Ht Hin]].
+  exists t. split; [exact Ht|]. destruct t; try (destruct Hin; fail). destruct Hin as [<-|[]].
+  cbn. apply opair_eqb_eq. reflexivity.
+Qed.
+
+Theorem process_has_type_entry : forall I f fi p r rc,
+  nth_error (ci_functions I) f = Some fi ->
+  lookup_type (ci_reg I) (f_type_id fi) = Some (TCallable p r rc) ->
+  exists tau, type_of_tag I (CProcess f) = Some tau.
+Proof.
+  intros I f fi p r rc Hn Hl. unfold type_of_tag. rewrite Hn.
+  assert (Hex : extract_function_type_info (ci_reg I) fi = (p, f_type_id fi, Some rc, Some r))
+    by (unfold extract_function_type_info; rewrite Hl; reflexivity).
+  rewrite Hex.
+  destruct (position (is_process (Some rc, Some r)) (types (ci_xreg I))) as [tau|] eqn:Hpos; [eauto|exfalso].
+  revert Hpos. apply position_exists. unfold ci_xreg. cbn [types].
+  destruct (process_types_pass_covers (ci_reg I) (ci_functions I) (known_process_keys (ci_reg I)) fi rc (Some r) p (f_type_id fi)
+              (nth_error_In _ _ Hn) Hex) as [H|H].
+  - destruct (known_keys_in_types _ _ H) as [t [Ht Hp]]. exists t. split; [apply in_or_app; left; exact Ht|exact Hp].
+  - exists (TProcess (Some rc) (Some r)). split; [apply in_or_app; right; exact H|]. cbn. apply opair_eqb_eq. reflexivity.
+Qed.
+
+(* the program's own types keep their ids in the extended table *)
+Theorem xreg_keeps_ids : forall I i t, lookup_type (ci_reg I) i = Some t -> lookup_type (ci_xreg I) i = Some t.
+Proof.
+  intros I i t H. unfold lookup_type, ci_xreg in *. cbn [types].
+  rewrite nth_error_app1; [exact H|]. apply nth_error_Some. congruence.
+Qed.
